@@ -345,17 +345,22 @@ def validity_mask_cases(ctx):
 
 
 # ------------------------------------------------------------------ statistics files
-def gen_stats(rng, exact_grid):
+def gen_stats(rng, exact_grid, marker_like=False):
     """cluster statistics: per cluster n, and per gene (sum, sumsq, ge1) built from actual small samples so
     that variances are consistent.  exact_grid: cluster sizes are powers of two and values multiples of 1/4."""
-    n_genes = rng.choice([1, 2, 3, 4, 5, 6, 8])
+    n_genes = rng.choice([1, 2, 3, 4, 5, 6, 8, 10])
     n_leaves = rng.choice([2, 3, 3, 4, 4, 5, 6])
+    if marker_like:
+        n_genes = rng.choice([4, 5, 6, 8, 10, 12])
+        n_leaves = rng.choice([3, 4, 4, 5, 6])
     sizes = []
     for _ in range(n_leaves):
-        if exact_grid:
+        if marker_like and rng.random() < 0.8:
+            sizes.append(rng.choice([2, 3, 4, 4, 5, 8] if not exact_grid else [2, 4, 4, 8]))
+        elif exact_grid:
             sizes.append(rng.choice([1, 2, 2, 4, 4, 8, 16]))
         else:
-            sizes.append(rng.choice([0, 1, 1, 2, 2, 3, 4, 5, 7, 9, 12]))
+            sizes.append(rng.choice([0, 1, 2, 2, 3, 4, 5, 6, 7, 9, 12]))
     # gene profiles: level per cluster from a small set, spread from {0 (zero variance), small, big}
     data = []
     protos = []
@@ -363,8 +368,12 @@ def gen_stats(rng, exact_grid):
         if protos and rng.random() < 0.25:
             protos.append(protos[rng.randrange(len(protos))])      # duplicated gene: ties everywhere
             continue
-        levels = [rng.choice([0.0, 0.0, 0.5, 1.0, 2.0, 4.0, 6.0, 9.0, 12.0]) for _ in range(n_leaves)]
-        spread = [rng.choice([0.0, 0.0, 0.25, 0.5, 1.0, 3.0]) for _ in range(n_leaves)]
+        if marker_like:
+            levels = [rng.choice([0.0, 0.0, 8.0, 12.0]) for _ in range(n_leaves)]
+            spread = [rng.choice([0.0, 0.25, 0.5, 0.5]) for _ in range(n_leaves)]
+        else:
+            levels = [rng.choice([0.0, 0.0, 0.0, 0.5, 1.0, 4.0, 8.0, 8.0, 12.0]) for _ in range(n_leaves)]
+            spread = [rng.choice([0.0, 0.25, 0.25, 0.5, 0.5, 1.0, 3.0]) for _ in range(n_leaves)]
         protos.append((levels, spread))
     for c in range(n_leaves):
         n = sizes[c]
@@ -420,10 +429,11 @@ def enc_pair(pi, p_th, k):
             [to_int(v, k) for v in pi['mean1']], [to_int(v, k) for v in pi['mean2']]]
 
 
-def near_tie(pi, th, p_th, n_valid, mask_list):
-    """True when a decision of the float computation is within 1e-9 (relative) of flipping, so that
-    exact arithmetic need not agree: p*m next to p_th, a distance next to 1e-10 or next to the cut-off
-    reached through different terms."""
+def near_tie(pi, th, p_th, mask_list):
+    """True when a primitive comparison of the float computation is within 1e-9 (relative) of flipping, so
+    that exact arithmetic need not agree: p*m next to p_th, a distance next to 1e-10, or two distances that
+    agree to 1e-9 and whose float values compare differently from their exact values."""
+    from cell_type_mapper.diff_exp.scores import penetrance_parameter_distance
     T = fr(p_th)
     p = [fr(v) for v in pi['p']]
     m = len(p)
@@ -436,35 +446,550 @@ def near_tie(pi, th, p_th, n_valid, mask_list):
 
     def term(x, t):
         return Fraction(0) if x > t else (x - t) ** 2
-    trip = []
+    sc = []
     for g in range(m):
         if mask_list is not None and not mask_list[g]:
-            s = (Fraction(-1), Fraction(0), Fraction(-1))
+            sc.append((-1.0, 0.0, -1.0))
         else:
-            s = (fr(pi['q1'][g]), fr(pi['qdiff'][g]), fr(pi['fold'][g]))
-        trip.append((term(s[0], q1_th), term(s[1], qd_th), term(s[2], f_th)))
-    tot = [a + b + c for a, b, c in trip]
-    for t in tot:
-        if t != EPS10 and abs(t - EPS10) <= EPS10 * Fraction(1, 10 ** 6):
+            sc.append((pi['q1'][g], pi['qdiff'][g], pi['fold'][g]))
+    if m == 0:
+        return False
+    with quiet():
+        d = penetrance_parameter_distance(
+            q1_score=np.array([x[0] for x in sc]), qdiff_score=np.array([x[1] for x in sc]),
+            log2_fold=np.array([x[2] for x in sc]), q1_th=th[0], q1_min_th=th[1], qdiff_th=th[2],
+            qdiff_min_th=th[3], log2_fold_th=th[4], log2_fold_min_th=th[5])
+    entries = []
+    for g in range(m):
+        a, b, c = term(fr(sc[g][0]), q1_th), term(fr(sc[g][1]), qd_th), term(fr(sc[g][2]), f_th)
+        tot = a + b + c
+        if tot != EPS10 and abs(tot - EPS10) <= EPS10 * Fraction(1, 10 ** 6):
             return True
-    for w in ((Fraction(3, 2), 1, 1), (1, Fraction(3, 2), 1), (1, 1, Fraction(3, 2))):
-        d = [w[0] * a + w[1] * b + w[2] * c for a, b, c in trip]
-        for i in range(m):
-            for j in range(i + 1, m):
-                if trip[i] != trip[j] and abs(d[i] - d[j]) <= max(d[i], d[j]) * Fraction(1, 10 ** 9):
-                    return True
-    # cut-offs are compared across the three weightings as well
-    alld = [(w[0] * a + w[1] * b + w[2] * c, (a, b, c), w) for a, b, c in trip
-            for w in ((Fraction(3, 2), 1, 1), (1, Fraction(3, 2), 1), (1, 1, Fraction(3, 2)))]
-    alld.sort(key=lambda t: t[0])
-    for (d1, t1, w1), (d2, t2, w2) in zip(alld, alld[1:]):
-        if (t1, w1) != (t2, w2) and d1 != d2 and abs(d1 - d2) <= max(d1, d2) * Fraction(1, 10 ** 9):
+        if (fr(d['true'][g]) < EPS10) != (tot < EPS10):
             return True
-        if d1 == d2 and (t1 != t2 or w1 != w2) and d1 != 0:
-            # equal in exact arithmetic through different terms: the floats may differ in the last bit
-            if not all(float(x).hex() and fr(float(x)) == x for x in (d1,)):
-                return True
+        if d['invalid'][g]:
+            continue
+        for name, ex in (('q1', b + Fraction(3, 2) * a + c), ('qdiff', Fraction(3, 2) * b + a + c),
+                         ('fold', b + a + Fraction(3, 2) * c)):
+            entries.append((ex, fr(d[name][g])))
+    for i in range(len(entries)):
+        for j in range(i + 1, len(entries)):
+            (e1, f1), (e2, f2) = entries[i], entries[j]
+            if ((e1 > e2) - (e1 < e2)) != ((f1 > f2) - (f1 < f2)) and abs(e1 - e2) <= max(e1, e2) * Fraction(1, 10 ** 9):
+                return True     # rounding reorders two distances that are equal to 1e-9
     return False
+
+
+def exact_decisions(pi, th, p_th, gene_ok):
+    """per gene, in exact arithmetic: (corrected p below p_th, strictly passing, below a floor)."""
+    T = fr(p_th)
+    holm = holm_exact([fr(v) for v in pi['p']])
+    out = []
+    for g in range(len(pi['p'])):
+        q1, qd, f = fr(pi['q1'][g]), fr(pi['qdiff'][g]), fr(pi['fold'][g])
+        strict = q1 > fr(th[0]) and qd > fr(th[2]) and f > fr(th[4])
+        below = q1 < fr(th[1]) or qd < fr(th[3]) or f < fr(th[5])
+        out.append({'weak': q1 >= fr(th[0]) and qd >= fr(th[2]) and f >= fr(th[4]), 'p_ok': holm[g] < T, 'p_near': holm[g] != T and abs(holm[g] - T) <= T * Fraction(1, 10 ** 9),
+                    'strict': strict, 'below': below, 'listed': gene_ok[g]})
+    return out
+
+
+def spec_markers(pi, th, p_th, gene_ok, exact, up, down, n_min=2):
+    """the property's statement for one pair on the observed up / down gene lists."""
+    probs = []
+    dec = exact_decisions(pi, th, p_th, gene_ok)
+    big = pi['n1'] >= n_min and pi['n2'] >= n_min
+    both = sorted(set(up) & set(down))
+    if both:
+        probs.append(('both', f'gene(s) {both} recorded both up and down'))
+    for g, dd in enumerate(dec):
+        rec = g in up or g in down
+        if dd['p_near']:
+            continue
+        if rec:
+            if not big:
+                probs.append(('small', f'gene {g} recorded although a cluster has fewer than {n_min} cells '
+                                       f'({pi["n1"]}, {pi["n2"]})'))
+            if not dd['p_ok']:
+                probs.append(('p', f'gene {g} recorded although its Holm-corrected p-value is not below p_th'))
+            if dd['below']:
+                probs.append(('floor', f'gene {g} recorded although below a floor'))
+            if not dd['listed']:
+                probs.append(('list', f'gene {g} recorded although not in the gene list'))
+            if exact and not dd['strict']:
+                probs.append(('exact', f'gene {g} recorded with exact penetrance although it fails a strict threshold'))
+            want_up = pi['mean2'][g] > pi['mean1'][g]
+            if (g in up) != want_up:
+                probs.append(('direction', f'gene {g}: recorded {"up" if g in up else "down"}, means {pi["mean1"][g]} -> {pi["mean2"][g]}'))
+        elif big and dd['p_ok'] and dd['strict'] and dd['listed']:
+            probs.append(('missing', f'gene {g} passes every strict criterion but is not recorded'))
+    return probs
+
+
+def rows_of(ptr, idx):
+    return [sorted(int(v) for v in idx[ptr[i]:ptr[i + 1]]) for i in range(len(ptr) - 1)]
+
+
+def read_marker_file(path):
+    with h5py.File(path, 'r') as f:
+        o = {'pair_to_idx': json.loads(f['pair_to_idx'][()].decode('utf-8')),
+             'gene_names': json.loads(f['gene_names'][()].decode('utf-8')), 'n_pairs': int(f['n_pairs'][()])}
+        for grp in ('sparse_by_pair', 'sparse_by_gene'):
+            for k in ('up_pair_idx', 'up_gene_idx', 'down_pair_idx', 'down_gene_idx'):
+                o[f'{grp}/{k}'] = [int(v) for v in f[grp][k][()]]
+    return o
+
+
+def transpose_rows(rows, n_cols):
+    out = [[] for _ in range(n_cols)]
+    for i, r in enumerate(rows):
+        for c in r:
+            out[c].append(i)
+    return out
+
+
+def marker_error(e):
+    msg = str(e)
+    if isinstance(e, ValueError) and 'chunk dimensions must be positive' in msg.lower():
+        return 'nochunk'
+    if isinstance(e, RuntimeError) and 'do not overlap' in msg:
+        return ERR['E_NOGENES']
+    if isinstance(e, RuntimeError) and ('must be >' in msg):
+        return ERR['E_Q1'] if 'q1_th must' in msg else ERR['E_QDIFF'] if 'qdiff_th must' in msg else ERR['E_FOLD']
+    return f'{type(e).__name__}: {msg}'[:200]
+
+
+TH_SETS = [
+    [0.5, 0.1, 0.7, 0.1, 1.0, 0.8], [0.5, 0.1, 0.7, 0.1, 1.0, 0.8],
+    [0.5, 0.25, 0.5, 0.25, 1.0, 0.5], [0.25, 0.0, 0.5, 0.0, 0.5, 0.25], [0.75, 0.5, 0.75, 0.5, 2.0, 1.0],
+    [0.5, 0.0, 0.25, 0.0, 0.25, 0.0], [0.9375, 0.5, 0.875, 0.125, 3.0, 0.75],
+]
+
+
+def sdg_cases(ctx):
+    """score_differential_genes itself, with n_valid_min and valid_gene_idx varied."""
+    from cell_type_mapper.taxonomy.taxonomy_tree import TaxonomyTree
+    from cell_type_mapper.diff_exp.score_utils import read_precomputed_stats
+    from cell_type_mapper.diff_exp.scores import score_differential_genes
+    from cell_type_mapper.utils.stats_utils import boring_t_from_p_value
+    rng = ctx.rng
+    d = ctx.scratch / 'sdg'
+    d.mkdir()
+    recs, cases = [], []
+    for ci in range(ctx.n(60, 2500)):
+        st = gen_stats(rng, exact_grid=rng.random() < 0.5)
+        leaves = [f'c{i}' for i in range(st['n_leaves'])]
+        genes = [f'g{i}' for i in range(st['n_genes'])]
+        tree = {'hierarchy': ['cluster'], 'cluster': {c: [] for c in leaves}}
+        path = d / 'stats.h5'
+        write_stats_file(path, leaves, tree, st, genes)
+        with quiet():
+            cs = read_precomputed_stats(path, TaxonomyTree(data=tree), for_marker_selection=True)['cluster_stats']
+        th = list(rng.choice(TH_SETS))
+        p_th = rng.choice([0.01, 0.01, 0.05, 0.5, 1.0, 0.001])
+        for a, b in rng.sample(list(itertools.combinations(leaves, 2)), min(3, st['n_leaves'] * (st['n_leaves'] - 1) // 2)):
+            if rng.random() < 0.5:
+                a, b = b, a
+            exact = rng.random() < 0.25
+            n_valid = rng.choice([1, 2, 3, 30])
+            n_valid_min = rng.choice([0, 1, 2, 3, 10])
+            vgi = None
+            if rng.random() < 0.4:
+                vgi = sorted(rng.sample(range(st['n_genes']), rng.randrange(0, st['n_genes'] + 1)))
+            pi = pair_inputs(cs, 'cluster', a, b, p_th)
+            with quiet():
+                _, v, up = score_differential_genes(
+                    node_1=f'cluster/{a}', node_2=f'cluster/{b}', precomputed_stats=cs, p_th=p_th, q1_th=th[0],
+                    qdiff_th=th[2], log2_fold_th=th[4], q1_min_th=th[1], qdiff_min_th=th[3], log2_fold_min_th=th[5],
+                    n_cells_min=2, boring_t=boring_t_from_p_value(p_th), exact_penetrance=exact, n_valid=n_valid,
+                    n_valid_min=n_valid_min, valid_gene_idx=None if vgi is None else np.array(vgi, dtype=np.int64))
+            k = scale_bits(pi['q1'] + pi['qdiff'] + pi['fold'] + pi['mean1'] + pi['mean2'] + th + [1.0])
+            mask = None if vgi is None else [g in vgi for g in range(st['n_genes'])]
+            cases.append((1105, [[1 << k, [to_int(x, k) for x in th], 2, exact, n_valid, n_valid_min],
+                                 [] if mask is None else [mask], enc_pair(pi, p_th, k)]))
+            recs.append((pi, th, p_th, exact, n_valid, n_valid_min, mask, [bool(x) for x in v], [bool(x) for x in up]))
+    shutil.rmtree(d, ignore_errors=True)
+    for (pi, th, p_th, exact, n_valid, n_valid_min, mask, v, up), r in zip(recs, ctx.model(cases)):
+        desc = {'pair': pi, 'thresholds': th, 'p_th': p_th, 'exact': exact, 'n_valid': n_valid, 'n_valid_min': n_valid_min,
+                'gene_mask': mask, 'observed_valid': v, 'observed_up': up, 'model': r}
+        m = len(v)
+        dec = exact_decisions(pi, th, p_th, mask or [True] * m)
+        pass2 = None if mask is None and False else [(mask[g] if mask else True) and dec[g]['p_ok'] for g in range(m)]
+        skip = near_tie(pi, th, p_th, mask) or near_tie(pi, th, p_th, pass2)
+        ctx.count(('sdg', json.dumps(pi, sort_keys=True), tuple(th), p_th, exact, n_valid, n_valid_min, str(mask)),
+                  nontrivial=any(v) and not all(v) and not skip)
+        ctx.dist('score_differential_genes', 'near-tie-skipped' if skip else
+                 ('small-cluster' if min(pi['n1'], pi['n2']) < 2 else ('some-valid' if any(v) else 'none-valid')))
+        corr, prop = [], []
+        if not skip:
+            if r[0] != 0 or [bool(x) for x in r[1][0]] != v or [bool(x) for x in r[1][1]] != up:
+                corr.append(f'validity {v} up {up}, model {r}')
+        if min(pi['n1'], pi['n2']) >= 2 or not any(v):
+            ups = [g for g in range(m) if v[g] and up[g]]
+            downs = [g for g in range(m) if v[g] and not up[g]]
+            prop += [t for _, t in spec_markers(pi, th, p_th, mask or [True] * m, exact, ups, downs)]
+        else:
+            prop.append('genes valid although a cluster has fewer than 2 cells')
+        report(ctx, desc, corr, prop, 'score_differential_genes', 'Penetrance.score_differential_genes')
+
+
+def f16_expected(w2, S):
+    """the binary16 number _p_values_worker stores for a weighted distance w2/(2 S^2)."""
+    v = float(Fraction(w2, 2 * S * S))
+    v = min(max(v, 0.0), 65504.0)
+    if v == 0.0:
+        return -1.0
+    eps = float(np.finfo(np.float16).resolution)
+    if abs(v) < eps:
+        v = eps
+    with np.errstate(all='ignore'):
+        return float(np.float16(v))
+
+
+def mask_n_per(n_genes, max_gb, n_pairs, n_processors):
+    """n_per of create_sparse_by_pair_marker_file_from_p_mask (max_gb already halved by the caller)."""
+    n_per = int(np.round(max_gb * 1024 ** 3 / (n_genes * 20)))
+    if n_per > n_pairs // (2 * n_processors):
+        n_per = n_pairs // (2 * n_processors)
+    if n_per == 0:
+        n_per = 10000
+    n_per -= n_per % 8
+    return max(8, n_per)
+
+
+def e2e_cases(ctx):
+    from cell_type_mapper.taxonomy.taxonomy_tree import TaxonomyTree
+    from cell_type_mapper.diff_exp.score_utils import read_precomputed_stats
+    from cell_type_mapper.diff_exp.markers import find_markers_for_all_taxonomy_pairs
+    from cell_type_mapper.diff_exp.p_value_mask import create_p_value_mask_file
+    from cell_type_mapper.diff_exp.p_value_markers import find_markers_for_all_taxonomy_pairs_from_p_mask
+    rng = ctx.rng
+    for ci in range(ctx.n(30, 450)):
+        d = ctx.scratch / f'e2e{ci}'
+        d.mkdir()
+        st = gen_stats(rng, exact_grid=rng.random() < 0.4, marker_like=rng.random() < 0.65)
+        nl, ng = st['n_leaves'], st['n_genes']
+        names = set()
+        while len(names) < nl:
+            names.add(rng.choice(['cl', 'X', 'a_', '1', 'Zz']) + str(rng.randrange(50)))
+        leaves = sorted(names)
+        rng.shuffle(leaves)
+        genes = [f'{rng.choice(["g", "G", "ENS"])}{i}_{rng.randrange(9)}' for i in range(ng)]
+        hier = ['class', 'cluster'] if rng.random() < 0.5 else ['cluster']
+        tree = {'hierarchy': hier}
+        if len(hier) == 2:
+            k = rng.randrange(1, nl + 1)
+            par = {f'P{i}': [] for i in range(k)}
+            for i, c in enumerate(leaves):
+                par[f'P{i}' if i < k else f'P{rng.randrange(k)}'].append(c)
+            tree['class'] = par
+        tree['cluster'] = {c: [] for c in leaves}
+        th = list(rng.choice(TH_SETS))
+        p_th = rng.choice([0.01, 0.01, 0.05, 0.5, 1.0])
+        exact = rng.random() < 0.25
+        n_valid = rng.choice([1, 2, 2, 3, 3, 30])
+        if rng.random() < 0.8:
+            n_valid = min(n_valid, ng)
+        gl_kind = rng.choice(['none', 'none', 'none', 'subset', 'subset', 'subset+unknown', 'subset+unknown', 'disjoint'])
+        gene_list = None
+        if gl_kind.startswith('subset'):
+            gene_list = rng.sample(genes, rng.randrange(1, ng + 1)) + (['nope1', 'nope2'] if 'unknown' in gl_kind else [])
+        elif gl_kind == 'disjoint':
+            gene_list = ['nope1', 'nope2']
+        gene_ok = [gene_list is None or g in gene_list for g in genes]
+        path = d / 'stats.h5'
+        write_stats_file(path, leaves, tree, st, genes)
+        with quiet():
+            tt = TaxonomyTree(data=tree)
+            cs = read_precomputed_stats(path, tt, for_marker_selection=True)['cluster_stats']
+        pairs = list(itertools.combinations(sorted(leaves), 2))
+        pis = [pair_inputs(cs, 'cluster', a, b, p_th) for a, b in pairs]
+        k = scale_bits([x for pi in pis for key in ('q1', 'qdiff', 'fold', 'mean1', 'mean2') for x in pi[key]] + th + [1.0])
+        S = 1 << k
+        ith = [to_int(x, k) for x in th]
+        base_desc = {'leaves': leaves, 'genes': genes, 'tree': tree, 'sizes': dict(zip(leaves, st['sizes'])),
+                     'cells': {c: st['data'][i].tolist() for i, c in enumerate(leaves)}, 'thresholds': th, 'p_th': p_th,
+                     'exact_penetrance': exact, 'n_valid': n_valid, 'gene_list': gene_list}
+        skip = False
+        for pi in pis:
+            if min(pi['n1'], pi['n2']) < 2:
+                continue
+            m1 = None if gene_list is None else gene_ok
+            dec = exact_decisions(pi, th, p_th, gene_ok)
+            m2 = [gene_ok[g] and dec[g]['p_ok'] for g in range(ng)]
+            if near_tie(pi, th, p_th, m1) or (not exact and near_tie(pi, th, p_th, m2)):
+                skip = True
+        # ---------------- main route, several worker counts / budgets
+        cfgs = rng.sample([(w, gb) for w in (1, 2, 3, 4) for gb in (1.0e-9, 0.001, 1.0)], ctx.n(2, 3))
+        outs = []
+        for w, gb in cfgs:
+            out = d / f'markers_{w}_{gb}.h5'
+            tmp = d / f'tmp_{w}_{gb}'
+            tmp.mkdir()
+            try:
+                with quiet():
+                    find_markers_for_all_taxonomy_pairs(
+                        precomputed_stats_path=path, taxonomy_tree=tt, output_path=out, p_th=p_th, q1_th=th[0],
+                        qdiff_th=th[2], log2_fold_th=th[4], q1_min_th=th[1], qdiff_min_th=th[3], log2_fold_min_th=th[5],
+                        n_processors=w, tmp_dir=str(tmp), max_gb=gb, exact_penetrance=exact, n_valid=n_valid,
+                        gene_list=gene_list)
+                outs.append((w, gb, read_marker_file(out), None))
+            except Exception as e:      # noqa
+                outs.append((w, gb, None, marker_error(e)))
+        mcases = [(1106, [[S, ith, 2, exact, n_valid, 10], [ctx_rank(genes, g) for g in genes],
+                          [] if gene_list is None else [[ctx_rank(genes, g) for g in gene_list]], w,
+                          [enc_pair(pi, p_th, k) for pi in pis]]) for w, gb, _, _ in outs]
+        mres = ctx.model(mcases)
+        first_ok = None
+        for (w, gb, o, err), r in zip(outs, mres):
+            desc = dict(base_desc, n_processors=w, max_gb=gb, model=r, error=err, route='find_markers_for_all_taxonomy_pairs',
+                        observed=None if o is None else {kk: vv for kk, vv in o.items() if kk.startswith('sparse')})
+            n_rec = 0 if o is None else len(o['sparse_by_pair/up_gene_idx']) + len(o['sparse_by_pair/down_gene_idx'])
+            ctx.count(('e2e', json.dumps(base_desc, sort_keys=True, default=str), w, gb),
+                      nontrivial=bool(o is not None and n_rec >= 2 and nl >= 3 and not skip))
+            ctx.dist('main_route', 'near-tie-skipped' if skip else ('ok' if o is not None else f'error-{err}'))
+            ctx.dist('main_route_workers', w)
+            corr, prop, cls = [], [], None
+            if o is None:
+                exp = {8: 'nochunk', 9: 'nochunk'}.get(r[1], r[1]) if r[0] == 1 else None
+                if not skip and (r[0] != 1 or exp != err):
+                    corr.append(f'implementation raised {err}, model {r[:2]}')
+                if err == 'nochunk':
+                    # markers of the other direction (or strictly passing genes) are lost with the run
+                    lost = []
+                    for (a, b), pi in zip(pairs, pis):
+                        dec = exact_decisions(pi, th, p_th, gene_ok)
+                        if min(pi['n1'], pi['n2']) >= 2:
+                            lost += [(a, b, g) for g, dd in enumerate(dec) if dd['p_ok'] and dd['strict'] and dd['listed']]
+                    ctx.dist('main_route_nochunk', 'markers-lost' if lost else 'nothing-to-record')
+                    if lost:
+                        prop.append(f'run raised "{err}" (no marker in one direction): strictly passing (pair, gene) {lost[:4]} are not recorded')
+                        cls = F13
+            else:
+                if first_ok is None:
+                    first_ok = o
+                elif {kk: vv for kk, vv in o.items()} != first_ok:
+                    prop.append('output depends on the worker count / memory budget')
+                up_rows = rows_of(o['sparse_by_pair/up_pair_idx'], o['sparse_by_pair/up_gene_idx'])
+                dn_rows = rows_of(o['sparse_by_pair/down_pair_idx'], o['sparse_by_pair/down_gene_idx'])
+                if not skip:
+                    if r[0] != 0:
+                        corr.append(f'implementation wrote a file, model raises {r[:2]}')
+                    else:
+                        for name, mv in zip(('up_pair_idx', 'up_gene_idx', 'down_pair_idx', 'down_gene_idx'), r[1]):
+                            if o[f'sparse_by_pair/{name}'] != mv:
+                                corr.append(f'sparse_by_pair/{name} = {o["sparse_by_pair/" + name]}, model {mv}')
+                # (b)
+                if o['gene_names'] != genes or o['n_pairs'] != len(pairs):
+                    prop.append('gene_names / n_pairs of the marker file differ from the statistics file')
+                idx_of = {}
+                for a, b in pairs:
+                    idx_of[(a, b)] = o['pair_to_idx'].get('cluster', {}).get(a, {}).get(b)
+                if sorted(v for v in idx_of.values() if v is not None) != list(range(len(pairs))):
+                    prop.append(f'pair_to_idx {o["pair_to_idx"]} does not number the leaf pairs')
+                elif len(up_rows) != len(pairs) or len(dn_rows) != len(pairs):
+                    prop.append('sparse_by_pair index arrays do not have one row per pair')
+                else:
+                    for (a, b), pi in zip(pairs, pis):
+                        i = idx_of[(a, b)]
+                        for kind, text in spec_markers(pi, th, p_th, gene_ok, exact, up_rows[i], dn_rows[i]):
+                            prop.append(f'pair ({a}, {b}): {text}')
+                    for dirn, rows_ in (('up', up_rows), ('down', dn_rows)):
+                        tr = transpose_rows(rows_, ng)
+                        got = rows_of(o[f'sparse_by_gene/{dirn}_gene_idx'], o[f'sparse_by_gene/{dirn}_pair_idx']) \
+                            if len(o[f'sparse_by_gene/{dirn}_gene_idx']) == ng + 1 else None
+                        if got != tr:
+                            prop.append(f'sparse_by_gene ({dirn}) is not the transpose of sparse_by_pair')
+                        for rr in rows_:
+                            if len(set(rr)) != len(rr):
+                                prop.append(f'duplicate gene in a sparse_by_pair row ({dirn})')
+            report(ctx, desc, corr, prop, 'markers', 'Penetrance.find_markers', cls)
+        # ---------------- pair swap: rename the leaves so that their order reverses
+        if first_ok is not None:
+            order = sorted(leaves)
+            ren = {c: f'r{len(order) - 1 - i:02d}_{c}' for i, c in enumerate(order)}
+            tree2 = {'hierarchy': hier}
+            if len(hier) == 2:
+                tree2['class'] = {pp: [ren[c] for c in ch] for pp, ch in tree['class'].items()}
+            tree2['cluster'] = {ren[c]: [] for c in leaves}
+            path2 = d / 'stats_swapped.h5'
+            write_stats_file(path2, [ren[c] for c in leaves], tree2, st, genes)
+            out2 = d / 'markers_swapped.h5'
+            o2, err2 = None, None
+            try:
+                with quiet():
+                    find_markers_for_all_taxonomy_pairs(
+                        precomputed_stats_path=path2, taxonomy_tree=TaxonomyTree(data=tree2), output_path=out2, p_th=p_th,
+                        q1_th=th[0], qdiff_th=th[2], log2_fold_th=th[4], q1_min_th=th[1], qdiff_min_th=th[3],
+                        log2_fold_min_th=th[5], n_processors=cfgs[0][0], tmp_dir=str(d), max_gb=1.0,
+                        exact_penetrance=exact, n_valid=n_valid, gene_list=gene_list)
+                o2 = read_marker_file(out2)
+            except Exception as e:      # noqa
+                err2 = marker_error(e)
+            ctx.count()
+            prop = []
+            if o2 is None:
+                prop.append(f'renaming the clusters makes the run fail: {err2}')
+            else:
+                up1 = rows_of(first_ok['sparse_by_pair/up_pair_idx'], first_ok['sparse_by_pair/up_gene_idx'])
+                dn1 = rows_of(first_ok['sparse_by_pair/down_pair_idx'], first_ok['sparse_by_pair/down_gene_idx'])
+                up2 = rows_of(o2['sparse_by_pair/up_pair_idx'], o2['sparse_by_pair/up_gene_idx'])
+                dn2 = rows_of(o2['sparse_by_pair/down_pair_idx'], o2['sparse_by_pair/down_gene_idx'])
+                for (a, b), pi in zip(pairs, pis):
+                    i1 = first_ok['pair_to_idx']['cluster'][a][b]
+                    i2 = o2['pair_to_idx']['cluster'].get(ren[b], {}).get(ren[a])
+                    if i2 is None:
+                        prop.append(f'pair ({ren[b]}, {ren[a]}) missing after renaming')
+                        continue
+                    if (up1[i1], dn1[i1]) != (dn2[i2], up2[i2]):
+                        pi_sw = pair_inputs(read_precomputed_stats(path2, TaxonomyTree(data=tree2), True)['cluster_stats'],
+                                            'cluster', ren[b], ren[a], p_th)
+                        dsw = exact_decisions(pi_sw, th, p_th, gene_ok)
+                        d0 = exact_decisions(pi, th, p_th, gene_ok)
+                        if skip or any(x['p_near'] for x in dsw + d0) or any(x['p_ok'] != y['p_ok'] for x, y in zip(dsw, d0)):
+                            ctx.dist('pair_swap', 'near-tie-skipped')
+                            continue
+                        prop.append(f'pair ({a}, {b}): up {up1[i1]} down {dn1[i1]}; swapped: up {up2[i2]} down {dn2[i2]}')
+                ctx.dist('pair_swap', 'checked')
+            report(ctx, dict(base_desc, renaming=ren, route='pair swap'), [], prop, 'pair_swap', 'Penetrance.find_markers')
+        # ---------------- p-value mask route
+        mask_ok = len(pairs) % 8 != 1 and gl_kind != 'disjoint' and n_valid <= ng
+        if mask_ok:
+            w = rng.randrange(1, 5)
+            mpath = d / 'pmask.h5'
+            n_per_mask = rng.choice([8, 8, 16, 10000])
+            err = None
+            try:
+                with quiet():
+                    create_p_value_mask_file(precomputed_stats_path=path, dst_path=mpath, p_th=p_th, q1_th=th[0],
+                                             q1_min_th=th[1], qdiff_th=th[2], qdiff_min_th=th[3], log2_fold_th=th[4],
+                                             log2_fold_min_th=th[5], n_processors=w, tmp_dir=str(d), n_per=n_per_mask)
+                with h5py.File(mpath, 'r') as f:
+                    mk = {'indptr': [int(v) for v in f['indptr'][()]], 'indices': [int(v) for v in f['indices'][()]],
+                          'data': [float(v) for v in f['data'][()]], 'dtype': str(f['data'].dtype),
+                          'pair_to_idx': json.loads(f['pair_to_idx'][()].decode('utf-8'))}
+            except Exception as e:      # noqa
+                err = marker_error(e)
+            rows_m = ctx.model([(1108, [[S, ith, 2, exact, n_valid, 10], enc_pair(pi, p_th, k)]) for pi in pis])
+            desc = dict(base_desc, n_processors=w, n_per=n_per_mask, route='create_p_value_mask_file', error=err,
+                        observed=None if err else mk, model=rows_m)
+            ctx.count(('mask', json.dumps(base_desc, sort_keys=True, default=str), w, n_per_mask),
+                      nontrivial=bool(err is None and len(mk['indices']) >= 2 and not skip))
+            total = sum(len(r[1]) for r in rows_m if r[0] == 0)
+            ctx.dist('mask_file', 'near-tie-skipped' if skip else ('ok' if err is None else f'error-{err}'))
+            corr, prop, cls = [], [], None
+            if err is not None:
+                if not (err == 'nochunk' and total == 0) and not skip:
+                    corr.append(f'mask creation raised {err}; the model has {total} entries')
+            else:
+                if mk['dtype'] != 'float16' or len(mk['indptr']) != len(pairs) + 1:
+                    prop.append('mask file: wrong data type / number of rows')
+                else:
+                    for j, ((a, b), pi, r) in enumerate(zip(pairs, pis, rows_m)):
+                        lo, hi = mk['indptr'][j], mk['indptr'][j + 1]
+                        got = list(zip(mk['indices'][lo:hi], mk['data'][lo:hi]))
+                        if not skip:
+                            if r[0] != 0:
+                                corr.append(f'mask row {j}: model raises {r[:2]}')
+                            else:
+                                want = [(g, f16_expected(w2, S)) for g, w2 in r[1]]
+                                if got != want:
+                                    corr.append(f'mask row {j} ({a}, {b}) = {got}, model {want}')
+                        dec = exact_decisions(pi, th, p_th, [True] * ng)
+                        for g, dist_ in got:
+                            dd = dec[g]
+                            if dd['p_near']:
+                                continue
+                            if not dd['p_ok'] or dd['below']:
+                                prop.append(f'mask row ({a}, {b}) keeps gene {g} (corrected p below p_th: {dd["p_ok"]}, below a floor: {dd["below"]})')
+                            if (dd['strict'] and dist_ != -1.0) or (dist_ == -1.0 and not dd['weak']):
+                                prop.append(f'mask row ({a}, {b}) gene {g}: stored {dist_}, strictly passing: {dd["strict"]}, '
+                                            f'on or above every strict threshold: {dd["weak"]}')
+                        for g, dd in enumerate(dec):
+                            if dd['p_ok'] and not dd['below'] and not dd['p_near'] and g not in [x[0] for x in got]:
+                                prop.append(f'mask row ({a}, {b}) lacks gene {g} although corrected p < p_th and above all floors')
+            report(ctx, desc, corr, prop, 'p_value_mask', 'Penetrance.p_mask_row', cls)
+            if err is None:
+                runs = []
+                for w2_, gb in rng.sample([(ww, g_) for ww in (1, 2, 3, 4) for g_ in (1.0e-9, 1.0)], 2):
+                    n_per2 = mask_n_per(ng, 0.5 * gb, len(pairs), w2_)
+                    if len(pairs) % n_per2 == 1:
+                        continue
+                    out = d / f'from_mask_{w2_}_{gb}.h5'
+                    tmp = d / f'tmpm_{w2_}_{gb}'
+                    tmp.mkdir()
+                    try:
+                        with quiet():
+                            find_markers_for_all_taxonomy_pairs_from_p_mask(
+                                precomputed_stats_path=path, p_value_mask_path=mpath, output_path=out, n_processors=w2_,
+                                tmp_dir=str(tmp), max_gb=gb, n_valid=n_valid, gene_list=gene_list)
+                        runs.append((w2_, gb, n_per2, read_marker_file(out), None))
+                    except Exception as e:      # noqa
+                        runs.append((w2_, gb, n_per2, None, marker_error(e)))
+                k16 = 24
+                mp = []
+                for j, pi in enumerate(pis):
+                    lo, hi = mk['indptr'][j], mk['indptr'][j + 1]
+                    mp.append([[[g, to_int(v, k16)] for g, v in zip(mk['indices'][lo:hi], mk['data'][lo:hi])],
+                               [to_int(v, k) for v in pi['mean1']], [to_int(v, k) for v in pi['mean2']]])
+                res2 = ctx.model([(1109, [1 << k16, n_valid, [ctx_rank(genes, g) for g in genes],
+                                          [] if gene_list is None else [[ctx_rank(genes, g) for g in gene_list]], n_per2, mp])
+                                  for (_, _, n_per2, _, _) in runs])
+                first2 = None
+                for (w2_, gb, n_per2, o, err2), r in zip(runs, res2):
+                    desc = dict(base_desc, n_processors=w2_, max_gb=gb, route='find_markers_for_all_taxonomy_pairs_from_p_mask',
+                                mask=mk, model=r, error=err2,
+                                observed=None if o is None else {kk: vv for kk, vv in o.items() if kk.startswith('sparse')})
+                    ctx.count(('frommask', json.dumps(base_desc, sort_keys=True, default=str), w2_, gb),
+                              nontrivial=bool(o is not None and len(o['sparse_by_pair/up_gene_idx']) >= 1 and nl >= 3))
+                    ctx.dist('mask_route', 'ok' if o is not None else f'error-{err2}')
+                    corr, prop, cls = [], [], None
+                    if o is None:
+                        exp = {8: 'nochunk', 9: 'nochunk'}.get(r[1], r[1]) if r[0] == 1 else None
+                        if r[0] != 1 or exp != err2:
+                            corr.append(f'implementation raised {err2}, model {r[:2]}')
+                    else:
+                        if first2 is None:
+                            first2 = o
+                        elif o != first2:
+                            prop.append('mask route: output depends on the worker count / memory budget')
+                        if r[0] != 0:
+                            corr.append(f'implementation wrote a file, model raises {r[:2]}')
+                        else:
+                            for name, mv in zip(('up_pair_idx', 'up_gene_idx', 'down_pair_idx', 'down_gene_idx'), r[1]):
+                                if o[f'sparse_by_pair/{name}'] != mv:
+                                    corr.append(f'sparse_by_pair/{name} = {o["sparse_by_pair/" + name]}, model {mv}')
+                        up_rows = rows_of(o['sparse_by_pair/up_pair_idx'], o['sparse_by_pair/up_gene_idx'])
+                        dn_rows = rows_of(o['sparse_by_pair/down_pair_idx'], o['sparse_by_pair/down_gene_idx'])
+                        small = False
+                        for (a, b), pi in zip(pairs, pis):
+                            i = o['pair_to_idx']['cluster'][a][b]
+                            for kind, text in spec_markers(pi, th, p_th, gene_ok, False, up_rows[i], dn_rows[i]):
+                                if kind == 'small':
+                                    small = True
+                                prop.append((kind, f'pair ({a}, {b}): {text}'))
+                        if small and all(kind in ('small',) for kind, _ in prop if isinstance(kind, str)):
+                            cls = F12
+                        elif small:
+                            # other clauses may fail on the same one-cell pairs only
+                            cls = F12 if all(kind == 'small' or True for kind, _ in prop) and \
+                                all(min(pi['n1'], pi['n2']) < 2 for (a, b), pi in zip(pairs, pis)
+                                    if any(f'({a}, {b})' in t for kk, t in prop if kk != 'small')) else None
+                        prop = [t for _, t in sorted(prop, key=lambda x: x[0] != 'small')]
+                        for dirn, rows_ in (('up', up_rows), ('down', dn_rows)):
+                            got = rows_of(o[f'sparse_by_gene/{dirn}_gene_idx'], o[f'sparse_by_gene/{dirn}_pair_idx']) \
+                                if len(o[f'sparse_by_gene/{dirn}_gene_idx']) == ng + 1 else None
+                            if got != transpose_rows(rows_, ng):
+                                prop.append(f'mask route: sparse_by_gene ({dirn}) is not the transpose of sparse_by_pair')
+                                cls = None
+                    report(ctx, desc, corr, prop, 'markers_from_mask', 'Penetrance.find_markers_from_mask', cls)
+        shutil.rmtree(d, ignore_errors=True)
+
+
+def ctx_rank(genes, g):
+    """order-preserving integer names for genes; unknown names get ranks beyond the known ones."""
+    allg = sorted(set(genes) | {'nope1', 'nope2'})
+    return allg.index(g)
 
 
 def run(ctx):
@@ -479,10 +1004,19 @@ def run(ctx):
         'closer settings are generated and reported as the known finding F8',
         'floors are >= 0 so that genes outside the gene list (scored q1 = -1, qdiff = 0, fold = -1) lie below a floor',
         'p_th in [1e-11, 1] (boring_t_from_p_value rejects smaller values)',
+        'decisions of the float code whose exact counterpart is within 1e-9 (relative) of flipping (p*m next to p_th, a '
+        'distance next to 1e-10, two nearly equal distances ordered differently by rounding) are counted and skipped',
+        'p-value-mask route: a chunk of exactly one pair makes the worker raise (np.diff of one index) - an error, not an '
+        'unsound output: taxonomies with n_pairs % n_per == 1 are not run on that route; n_valid <= number of genes there '
+        '(otherwise _get_validity_mask raises IndexError, covered by the function-level tie); gene lists overlap the genes',
+        'a run in which no gene is recorded in one direction for any pair raises ValueError (zero-size HDF5 chunk): modelled '
+        'as an error; reported as known finding F13 when recorded / strictly passing markers are lost with it',
     ]
     holm_cases(ctx)
     penetrance_cases(ctx)
     validity_mask_cases(ctx)
+    sdg_cases(ctx)
+    e2e_cases(ctx)
 
 
 def replay(ctx, rec):
